@@ -34,6 +34,7 @@ import (
 	"github.com/pkg/errors"
 	tally "github.com/uber-go/tally/v4"
 	"github.com/uber-go/tally/v4/internal/cache"
+	"github.com/uber-go/tally/v4/internal/verifhook"
 	customtransport "github.com/uber-go/tally/v4/m3/customtransports"
 	m3thrift "github.com/uber-go/tally/v4/m3/thrift/v2"
 	"github.com/uber-go/tally/v4/m3/thriftudp"
@@ -512,10 +513,12 @@ func (r *reporter) reportCopyMetric(
 	r.pending.Inc()
 	defer r.pending.Dec()
 
+	verifhook.Yield("m3.report.post-inc")
 	if r.done.Load() {
 		return
 	}
 
+	verifhook.Yield("m3.report.post-done-check")
 	m.Timestamp = r.now.Load()
 
 	sm := sizedMetric{
@@ -537,10 +540,12 @@ func (r *reporter) Flush() {
 	r.pending.Inc()
 	defer r.pending.Dec()
 
+	verifhook.Yield("m3.flush.post-inc")
 	if r.done.Load() {
 		return
 	}
 
+	verifhook.Yield("m3.flush.post-done-check")
 	r.reportInternalMetrics()
 	r.metCh <- sizedMetric{}
 }
@@ -552,12 +557,16 @@ func (r *reporter) Close() (err error) {
 	}
 
 	// Wait for any pending reports to complete.
+	verifhook.Yield("m3.close.post-cas")
 	for r.pending.Load() > 0 {
 		runtime.Gosched()
 	}
 
+	verifhook.Yield("m3.close.post-spin")
 	close(r.donech)
+	verifhook.Yield("m3.close.post-donech")
 	close(r.metCh)
+	verifhook.Yield("m3.close.post-metch")
 	r.wg.Wait()
 
 	return nil
@@ -591,6 +600,7 @@ func (r *reporter) process() {
 		flush := !smet.set && len(mets) > 0
 		if flush || bytes+smet.size > r.freeBytes {
 			r.numMetrics.Add(int64(len(mets)))
+			verifhook.YieldInt("m3.process.flush", int64(bytes))
 			mets = r.flush(mets)
 			bytes = 0
 
@@ -625,11 +635,13 @@ func (r *reporter) process() {
 			m.Tags = tags
 		}
 
+		verifhook.YieldInt("m3.process.charge", int64(smet.size))
 		mets = append(mets, m)
 		bytes += smet.size
 	}
 
 	// Final flush
+	verifhook.YieldInt("m3.process.flush", int64(bytes))
 	r.flush(mets)
 }
 
